@@ -20,6 +20,10 @@ REPO = os.environ.get("VERIF_REPO", "/repo")
 
 
 def parse(path):
+    if path.endswith("patch.diff"):
+        # a seeded change kept under seeded/<ID>/: any violation of its property counts
+        pid = os.path.basename(os.path.dirname(path))
+        return {"property": pid, "rule": "", "expect": ".", "seed": "1"}
     meta = {}
     for l in open(path):
         if l.startswith("# "):
@@ -30,9 +34,14 @@ def parse(path):
     return meta
 
 
+AS_PROP = None
+
+
 def run_one(path, keep=False):
     meta = parse(path)
-    name = os.path.basename(path)[:-6]
+    if AS_PROP:
+        meta["property"] = AS_PROP
+    name = os.path.basename(path)[:-6] if not meta.get("seed") else "seed_" + os.path.basename(os.path.dirname(path))
     t0 = time.time()
     tmp = tempfile.mkdtemp(prefix="discv5-mut-")
     res = {"mutant": name, "property": meta.get("property"), "rule": meta.get("rule"), "expect": meta.get("expect")}
@@ -75,7 +84,7 @@ def run_one(path, keep=False):
             return res
         exp = re.compile(meta.get("expect", "."))
         rule = meta.get("rule", "")
-        hit = [k for k in keys if k.startswith(rule + "|") and exp.search(k)]
+        hit = [k for k in keys if (k.startswith(rule + "|") or not rule) and exp.search(k)]
         other = [k for k in keys if k not in hit]
         if hit:
             res["status"] = "caught"
@@ -96,24 +105,34 @@ def main():
     ap.add_argument("--jobs", type=int, default=6)
     ap.add_argument("--only")
     ap.add_argument("--prop")
+    ap.add_argument("--as-prop", help="run only this property's check; selects its mutants and every benign refactoring")
+    ap.add_argument("--json", help="write the result table here")
     a = ap.parse_args()
+    global AS_PROP
     d = os.path.join(HERE, "mutants")
     paths = sorted(os.path.join(d, f) for f in os.listdir(d) if f.endswith(".patch"))
+    sd = os.path.join(HERE, "seeded")
+    paths += sorted(os.path.join(sd, x, "patch.diff") for x in os.listdir(sd) if os.path.exists(os.path.join(sd, x, "patch.diff")))
     if a.only:
-        paths = [p for p in paths if re.search(a.only, os.path.basename(p))]
+        paths = [p for p in paths if re.search(a.only, os.path.basename(p) if not p.endswith("patch.diff") else "seed_" + os.path.basename(os.path.dirname(p)))]
     if a.prop:
         paths = [p for p in paths if parse(p).get("property") == a.prop]
+    if a.as_prop:
+        AS_PROP = a.as_prop
+        paths = [p for p in paths if a.as_prop in parse(p).get("property", "").split(",") or parse(p).get("property") == "ALL"]
     results = []
     with concurrent.futures.ThreadPoolExecutor(max_workers=a.jobs) as ex:
         for r in ex.map(run_one, paths):
             results.append(r)
-            print("%-44s %-6s %-10s %-22s %5.1fs" % (r["mutant"], r["property"], r["rule"], r["status"], r["wall_s"]))
+            print("%-44s %-6s %-10s %-22s %5.1fs" % (r["mutant"], r["property"], r.get("rule") or "-", r["status"], r["wall_s"]))
             if r["status"] in ("MISSED", "FALSE-ALARM"):
                 print("     " + (r.get("detail") or "").replace("\n", "\n     ")[-500:])
             sys.stdout.flush()
     os.makedirs(os.path.join(HERE, "out"), exist_ok=True)
-    if not a.only and not a.prop:
+    if not a.only and not a.prop and not a.as_prop:
         json.dump(results, open(os.path.join(HERE, "out", "mutants.json"), "w"), indent=1)
+    if a.json:
+        json.dump(results, open(a.json, "w"), indent=1)
     missed = [r for r in results if r["status"] == "MISSED"]
     fa = [r for r in results if r["status"] == "FALSE-ALARM"]
     print("benign refactorings: %d silent, %d false alarms" % (sum(r["status"] == "silent" for r in results), len(fa)))
